@@ -187,19 +187,19 @@ Qed.
 Lemma next_steps st ch st1 : next st = (ch, st1) -> steps st st1.
 Proof. intros H. replace st1 with (snd (next st)) by (rewrite H; reflexivity). apply steps_one. Qed.
 
-Lemma scan_escape_steps st b st1 : scan_escape st = (b, st1) -> steps st st1.
+Lemma scan_escape_steps st : fine st (scan_escape st).
 Proof.
-  unfold scan_escape. destruct (next st) as [ch s1] eqn:Hn.
+  unfold scan_escape, esc_decimal. destruct (next st) as [ch s1] eqn:Hn.
   pose proof (next_steps _ _ _ Hn) as H1.
   pose proof (next_not_13 st) as H13. rewrite Hn in H13. simpl in H13.
   repeat match goal with
-  | |- (if ?c then _ else _) = _ -> _ => destruct c eqn:?
-  end; try (intros E; inversion E; subst; exact H1); try lia.
+  | |- fine _ (if ?c then _ else _) => destruct c eqn:?
+  end; simpl; auto; try lia.
   - destruct (next s1) as [c2 s2] eqn:Hn2. pose proof (next_steps _ _ _ Hn2) as H2.
     destruct (is_dec (peek s2)).
     + destruct (next s2) as [c3 s3] eqn:Hn3. pose proof (next_steps _ _ _ Hn3) as H3.
-      intros E; inversion E; subst. eapply steps_trans; eauto. eapply steps_trans; eauto.
-    + intros E; inversion E; subst. eapply steps_trans; eauto.
+      destruct (255 <? _); simpl; auto. eapply steps_trans; eauto. eapply steps_trans; eauto.
+    + destruct (255 <? _); simpl; auto. eapply steps_trans; eauto.
 Qed.
 
 Lemma work_lt_fuel ch st f : (ch <? 0) = false -> (work ch st < S f)%nat -> (rlen st < f)%nat.
@@ -214,8 +214,8 @@ Proof.
   assert (Hge: (ch <? 0) = false) by lia.
   pose proof (work_lt_fuel _ _ _ Hge Hw) as Hr.
   destruct (ch =? 92).
-  - destruct (scan_escape st) as [b st1] eqn:He.
-    pose proof (scan_escape_steps _ _ _ He) as H1.
+  - pose proof (scan_escape_steps st) as H1.
+    destruct (scan_escape st) as [b st1| |] eqn:He; simpl in H1; auto.
     destruct (next st1) as [ch1 st2] eqn:Hn.
     pose proof (next_steps _ _ _ Hn) as H2.
     pose proof (next_work _ _ _ Hn) as Hw2.
